@@ -34,6 +34,10 @@ pub assume_specification<T: ?Sized, A: Allocator>[ <Arc<T, A> as AsRef<T>>::as_r
 pub assume_specification<T: ?Sized, A: Allocator>[ <Box<T, A> as AsRef<T>>::as_ref ](a: &Box<T, A>) -> (r: &T)
     ensures r == &**a;
 
+pub assume_specification<T, E>[ Result::<T, E>::unwrap_or ](r: Result<T, E>, d: T) -> (v: T)
+    where E: core::marker::Destruct, T: core::marker::Destruct
+    ensures v == (match r { Ok(x) => x, Err(_) => d });
+
 /// `ToOwned for T: Clone` is defined in std as `self.clone()` / `*target = self.clone()`
 pub assume_specification<T: Clone>[ <T as std::borrow::ToOwned>::to_owned ](x: &T) -> (r: T)
     ensures cloned::<T>(*x, r);
